@@ -7,11 +7,28 @@ import "os"
 // ---- models (see harness/compactindexsized/c04_models.go for the rationale) ----
 
 func verifC04KeyID(key []byte) uint64 {
-	id := uint64(len(key)) << 32
-	for i := 0; i < 4 && i < len(key); i++ {
+	n := len(key)
+	id := uint64(n) << 32
+	for i := 0; i < 4 && i < n; i++ {
 		id |= uint64(key[i]) << (8 * i)
 	}
-	return id
+	if n <= 4 {
+		return id
+	}
+	// checksum over bytes 4..67, the middle byte and the last 64 bytes (harness keys are zero elsewhere)
+	var sum uint64
+	for i := 4; i < n && i < 68; i++ {
+		sum += uint64(i+1) * uint64(key[i])
+	}
+	if n/2 >= 68 {
+		sum += uint64(n/2+1) * uint64(key[n/2])
+	}
+	for i := n - 64; i < n; i++ {
+		if i >= 68 && i != n/2 {
+			sum += uint64(i+1) * uint64(key[i])
+		}
+	}
+	return id | (sum%31+1)<<50
 }
 
 var verifC04HashRange uint64
@@ -19,7 +36,8 @@ var verifC04HashRange uint64
 // EntryHash64 (model; real one renamed verifOrig_EntryHash64): arbitrary function of (prefix, key),
 // low 24 bits restricted to [0, verifC04HashRange) when that is non-zero.
 func EntryHash64(prefix uint32, key []byte) uint64 {
-	v := verifUF64("entryhash", uint64(prefix)<<48^verifC04KeyID(key))
+	verifAssert(prefix < 1<<9, "C04 model: hash prefix (nonce) >= 512")
+	v := verifUF64("entryhash", uint64(prefix)<<55^verifC04KeyID(key))
 	if verifC04HashRange != 0 {
 		verifAssume(v&0xffffff < verifC04HashRange)
 	}
